@@ -516,40 +516,91 @@ def _is_tlen(e):
         isinstance(e, ast.Attribute) and e.attr == 'tlen')
 
 
+REJECT_CALLS = ('error', 'fail', 'panic', 'warning', 'critical', 'die')
+
+
+def _rejects(block):
+    """Does this block refuse the transaction: raise, error()/fail()/...,
+    `return 0`, break."""
+    for s_ in block:
+        for x in ast.walk(s_):
+            if isinstance(x, (ast.Raise, ast.Break)):
+                return True
+            if isinstance(x, ast.Call) and dotted(x.func) and \
+                    dotted(x.func)[-1] in REJECT_CALLS:
+                return True
+            if isinstance(x, ast.Return) and isinstance(
+                    x.value, ast.Constant) and not x.value.value:
+                return True
+    return False
+
+
 @rule('C17.R7', 'every reader of the transaction log accepts a transaction '
       'whose length equals its header length (no data records): the '
-      'length test is strict everywhere', props=['C01'], min_instances=5)
+      'length test is strict everywhere', props=['C01'], min_instances=6)
 def r7(R):
     """Sibling agreement between the validators of a transaction header
     (open-time scan, sanity check, iterator, packer's checkTxn, recovery
-    tool).  `undoMultiple([])`, or a commit that stored nothing, writes a
-    transaction with tlen == headerlen()."""
+    tool, fstest).  `undoMultiple([])`, or a commit that stored nothing,
+    writes a transaction with tlen == headerlen().  For each `if` whose test
+    compares the transaction length with the header length the branch taken
+    in the boundary case (equal) is computed -- through `not` -- and must not
+    be the refusing one."""
     n = 0
     for f in R.prog.all_functions():
-        for c in walk_local(f.node):
-            if not (isinstance(c, ast.Compare) and len(c.ops) == 1):
+        hdr_locals = set()
+        for a in walk_local(f.node):
+            if isinstance(a, ast.Assign) and len(a.targets) == 1 and \
+                    isinstance(a.targets[0], ast.Name) and _is_hdrlen(a.value):
+                hdr_locals.add(a.targets[0].id)
+
+        def hdr(e):
+            return _is_hdrlen(e) or (isinstance(e, ast.Name) and
+                                     e.id in hdr_locals) or (
+                isinstance(e, ast.BinOp) and isinstance(e.op, ast.Add) and
+                False)
+
+        for st in walk_local(f.node):
+            if not isinstance(st, (ast.If, ast.While)):
                 continue
-            l, r, op = c.left, c.comparators[0], c.ops[0]
-            if _is_tlen(l) and _is_hdrlen(r):
-                strict = isinstance(op, ast.Lt)
-            elif _is_hdrlen(l) and _is_tlen(r):
-                strict = isinstance(op, ast.Gt)
-            else:
+            # value of the test in the boundary case, where it is decided
+            # by the length comparison
+
+            def at_equal(e, flip):
+                if isinstance(e, ast.UnaryOp) and isinstance(e.op, ast.Not):
+                    return at_equal(e.operand, not flip)
+                if isinstance(e, ast.Compare) and len(e.ops) == 1:
+                    l, r, op = e.left, e.comparators[0], e.ops[0]
+                    if (_is_tlen(l) and hdr(r)) or (hdr(l) and _is_tlen(r)):
+                        v = isinstance(op, (ast.LtE, ast.GtE, ast.Eq))
+                        return (v != flip), e
+                return None
+
+            r = at_equal(st.test, False)
+            if r is None:
+                continue
+            v, cmp_ = r
+            body_rej, else_rej = _rejects(st.body), _rejects(st.orelse)
+            if not body_rej and not else_rej:
+                R.observe('%s: `%s` leads to no recognisable refusal; not '
+                          'checked' % (f.short, ast.unparse(st.test)))
                 continue
             n += 1
-            R.instance('%s: %s' % (f.short, ast.unparse(c)))
-            if not strict:
+            R.instance('%s: %s' % (f.short, ast.unparse(st.test)))
+            refused = (v and body_rej) or (not v and else_rej and
+                                           not body_rej)
+            if refused:
                 R.violation(
                     (f.module.relpath, f.qualname,
-                     ' '.join(ast.unparse(c).split()), c.lineno),
-                    '%s rejects a transaction whose length equals its '
+                     ' '.join(ast.unparse(st.test).split()), st.lineno),
+                    '%s refuses a transaction whose length equals its '
                     'header length; the other readers (and the writer) '
                     'accept a transaction without data records, so this '
                     'reader drops it -- and what the scan finds next'
                     % f.short, key='transaction length vs header length')
-    R.require(n >= 5, 'expected the length tests of read_index, '
-              '_sane/_check_sanity, FileIterator, checkTxn and fsrecover; '
-              'found %d' % n)
+    R.require(n >= 6, 'expected the length tests of read_index, '
+              '_sane/_check_sanity, FileIterator, checkTxn, fsrecover and '
+              'fstest; found %d' % n)
 
 
 # ------------------------------------------------------------------ C17.R8
@@ -566,6 +617,30 @@ def r8(R):
         a = node.ast
         if node.kind == 'test' and lab in ('T', 'F'):
             for e, truth in implied_atoms(a, lab):
+                if isinstance(e, ast.BoolOp) and isinstance(
+                        e.op, ast.And) and not truth:
+                    # some conjunct is false: fine if each of them, when
+                    # false, says "not a blob record" (the test itself, or
+                    # the record having no data at all)
+                    def says_notblob(c):
+                        if isinstance(c, ast.Call) and dotted(c.func) and \
+                                dotted(c.func)[-1] == 'is_blob_record':
+                            return True
+                        if isinstance(c, ast.Compare) and len(c.ops) == 1 \
+                                and isinstance(c.ops[0], ast.IsNot) and \
+                                isinstance(c.comparators[0], ast.Constant) \
+                                and c.comparators[0].value is None:
+                            c = c.left
+                        return isinstance(c, ast.Attribute) and \
+                            c.attr == 'data'
+                    if all(says_notblob(c) for c in e.values):
+                        notblob = True
+                if isinstance(e, ast.Name):
+                    # a local bound once to the test's value
+                    ds = [d for d in F.b.local_defs(f).get(e.id, [])
+                          if isinstance(d, ast.AST)]
+                    if len(ds) == 1:
+                        e = ds[0]
                 if isinstance(e, ast.Call) and dotted(e.func) and \
                         dotted(e.func)[-1] == 'is_blob_record':
                     notblob = not truth
